@@ -131,11 +131,26 @@ class SymWorld(object):
     def note(self, k, v):
         self.ctx.notes[k] = v
 
-    def key(self, sym):
-        """Register a numeric-key literal standing for SymReal `sym` inside command text."""
+    def key(self, sym, style=""):
+        """Register a numeric-key literal standing for SymReal `sym` inside command text.
+
+        style: ""  plain digits; "." leading decimal point (requires 0 < v < 1); "+" explicit plus sign;
+               "-" explicit minus sign (the literal denotes -|v|, requires v < 0)"""
         kt = self.ctx.key_table
         lit = str(900001 + len(kt))
-        kt[lit] = sym
+        if style == ".":
+            self.assume(self.v._mk_bool(__import__("z3").And(sym.t > 0, sym.t < 1)))
+            lit = "." + lit
+            kt[lit] = sym
+        elif style == "+":
+            kt[lit] = sym
+            lit = "+" + lit
+        elif style == "-":
+            self.assume(sym < 0)
+            kt[lit] = -sym
+            lit = "-" + lit
+        else:
+            kt[lit] = sym
         return lit
 
     def resolve_number(self, text):
@@ -146,6 +161,8 @@ class SymWorld(object):
             return SymReal(self.ctx.fmt_table[tid][0])
         neg = False
         t = text
+        if t in self.ctx.key_table:
+            return self.ctx.key_table[t]
         if t[:1] in "+-":
             neg = t[0] == "-"
             t = t[1:]
@@ -221,9 +238,17 @@ class ConcWorld(object):
     def note(self, k, v):
         self.notes[k] = v
 
-    def key(self, value):
-        # concrete mode: the literal is the number itself, in plain decimal
-        return fmt_plain(value)
+    def key(self, value, style=""):
+        # concrete mode: the literal is the number itself, in plain decimal, in the requested spelling
+        t = fmt_plain(value)
+        if style == ".":
+            self.assume(0 < value < 1)
+            return t[1:] if t.startswith("0.") else t
+        if style == "+":
+            return t if t.startswith("-") else "+" + t
+        if style == "-":
+            self.assume(value < 0)
+        return t
 
     def resolve_number(self, text):
         return float(text)
@@ -243,7 +268,8 @@ def fmt_plain(v):
 # -------------------------------------------------------------------------------------------------
 class Scenario(object):
     def __init__(self, name, fn, params=None, cover=(), twin=True, bounds=None, budget_s=None,
-                 excludable=()):
+                 excludable=(), nra_mode="hybrid"):
+        self.nra_mode = nra_mode
         self.name = name
         self.fn = fn
         self.params = params or {}
@@ -351,6 +377,7 @@ def run_property(hm, tier, seed):
         def scen(ctx, _sc=sc, _excl=excl):
             w = SymWorld(ctx, _excl)
             _sc.fn(w, **_sc.params)
+        core.NRA_MODE = sc.nra_mode
         st, vs, complete = core.run_scenario(scen, seed=seed, setup=setup, budget_s=sc.budget_s)
         total.merge(st)
         info = {"scenario": sc.name, "params": sc.params, "bounds": sc.bounds, "complete": complete,
@@ -400,6 +427,14 @@ def run_property(hm, tier, seed):
         rr = replay_file(path)
         replays_run += 1
         if rr.get("reproduced"):
+            try:
+                art = json.load(open(path))
+                art["replay_result"] = {"failures": rr.get("failures"), "notes": rr.get("notes")}
+                with open(path, "w") as fh:
+                    json.dump(art, fh, indent=1, sort_keys=True)
+                    fh.write("\n")
+            except Exception:
+                pass
             reproduced.append((keyl, path, rr))
         else:
             not_reproduced += 1
